@@ -441,3 +441,18 @@ H("C18", "pbd", "c18_deform_parent_cycle_terminates", unwind=16, timeout=300, bo
   encodes=["pbd::PreBoneDeformer::get_deform_matrices"], cbmc_args=FS1K, unwind_is_violation="get_deform_matrices")
 H("C18", "tex", "c18_texture_short_payload_bc1", unwind=20, timeout=300, bounds="BC1 4x4 header with 4 payload bytes instead of 8, any attribute word", encodes=["tex::Texture::from_existing"], cbmc_args=FS256)
 H("C18", "tex", "c18_texture_short_payload_bgra", unwind=20, timeout=300, bounds="B8G8R8A8 2x1 header with 6 payload bytes instead of 8", encodes=["tex::Texture::from_existing"], cbmc_args=FS256)
+
+# C12 also covers the path hash (JAMCRC of the lower-cased path, case-insensitive): same harnesses as C01
+for n, t in ((1, "quick"), (2, "quick"), (3, "thorough"), (4, "thorough")):
+    H("C12", "sqpack_index", "c01_partial_hash_len%d" % n, tier=t, unwind=10, timeout=1200,
+      bounds="all ASCII strings of length %d: partial path hash = JAMCRC of the lower-cased bytes; equal for both cases" % n,
+      encodes=["sqpack::index::SqPackIndex::calculate_partial_hash", "crc::Jamcrc::checksum"], stubs=_LOW)
+
+# C07: header recomputation (one inductive step from an arbitrary stale header)
+_UH = ["model::MDL::update_headers", "model::ModelFileHeader::calculate_stack_size", "model::ModelData::calculate_runtime_size"]
+H("C07", "model", "c07_update_headers_two_lods", tier="thorough", unwind=5, timeout=1500, bounds="2 LODs x 1 mesh: vertex count <= 255, strides <= 15 (reduced widths: symbolic products), 1..3 streams, index count <= 2^24, arbitrary stale header values",
+  encodes=_UH, cbmc_args=FS1K)
+H("C07", "model", "c07_update_headers_two_meshes", tier="thorough", unwind=5, timeout=2400, bounds="1 LOD x 2 meshes, same widths", encodes=_UH, cbmc_args=FS1K)
+H("C07", "model", "c07_replace_vertices_step", unwind=8, timeout=900, bounds="1 mesh: replace by 3 vertices / 6 symbolic indices / 1 sub-mesh with symbolic offset, from an arbitrary stale header",
+  encodes=["model::MDL::replace_vertices"] + _UH, cbmc_args=FS1K)
+H("C07", "model", "c07m_pipeline_witness", expect="witness-fail", unwind=5, bounds="assert(false) twin", cbmc_args=FS1K)
